@@ -55,7 +55,22 @@ case "$1" in
     exit $rc
     ;;
 esac
-( cd /verif/mc && go1.26 build -tags verif -overlay "$ov" -o "$out" ./cmd/vcheck ) || { rm -f "$ov"; echo "vcheck: build failed" >&2; exit 2; }
+if ! ( cd /verif/mc && go1.26 build -tags verif -overlay "$ov" -o "$out" ./cmd/vcheck ); then
+  # A file of ANOTHER check does not compile (work in progress): build again
+  # with every other check's files stubbed out, so one broken check cannot
+  # take the others down. The requested check's own files are never stubbed.
+  case "${VERIF_NO_RETRY}$1" in
+    C[0-9][0-9])
+      own=$(echo "$1" | tr 'C' 'c')
+      skip=""
+      for i in $(seq -w 1 36); do [ "c$i" != "$own" ] && skip="$skip c$i"; done
+      echo "vcheck: build failed; retrying with only $1's files (others stubbed)" >&2
+      rm -f "$ov"
+      VERIF_SKIP="$skip" VERIF_NO_RETRY=1 exec /verif/run.sh "$@"
+      ;;
+  esac
+  rm -f "$ov"; echo "vcheck: build failed" >&2; exit 2
+fi
 if [ "$1" = "--warm" ]; then
   rm -f "$out"
   build_vsc /verif/.build/vsc-warm.$$
